@@ -25,6 +25,14 @@ Theorem qi_tracking_view_reads_what_it_commits : forall v k,
 Proof. exact v_get_commit. Qed.
 Print Assumptions qi_tracking_view_reads_what_it_commits.
 
+(* db.NewBatch(); SetPending(true) establishes the invariant and every accepted ProcessQiTx keeps it. *)
+Theorem qi_tracking_invariant :
+  (forall l : ledger, sorted l -> view_ok (view_of true l))
+  /\ (forall c (b b' : bst (S:=view)) t r,
+        view_ok (b_store b) -> process_qi view_store c b t = Ok (b', r) -> view_ok (b_store b')).
+Proof. exact tracking_invariant. Qed.
+Print Assumptions qi_tracking_invariant.
+
 (* Conservation, every fork regime: value consumed (+ the value entered twice by a wrapped output
    before QiWrappingChangeBlock, where the output is both written to the UTXO set and carried by
    the wrapping ETX) = local outputs + value sent to other chains / converted / wrapped + fee.
